@@ -126,7 +126,8 @@ CHECKS["C09"] = dict(
    text="spec/Wavefront.tla states the OPD definition (chief-ray reference sphere through the paraxial exit pupil, optical path in image space, object-space "
         "wavefront term, RMS definition); MC_Wavefront (636 rational cases) accepts perfect/defocused witnesses and rejects sign, root, centre, tilt and "
         "index variants. Trace_Wavefront validates Wavefront.data, OPD.rms, OPD fans, RMS-vs-field and the OPD_difference operand against independently "
-        "traced rays of the same samples for random lenses and samples (9 distributions, finite and infinite objects, exit pupils of both signs); the "
+        "traced rays of the same samples for random lenses and samples (9 distributions, finite and infinite objects, exit pupils of both signs), and the "
+        "OPD map at the grid nodes that coincide with its hexapolar samples against those samples (interpolation-free); the "
         "back-propagation distance is a certificate TLC verifies on the sphere equation. Calibration with 100+ corruptions per run.",
    technique="TLA+ law module + TLC MC on rational witnesses; code->spec trace validation (dyadic arithmetic) + calibration",
    ref="6 (C09)")
@@ -136,7 +137,8 @@ CHECKS["C12"] = dict(
         "primary index violates it; the cases are replayed into the code (shapes, keys, no exception) - and (2) every reported quantity as a polynomial "
         "function of ray records: centroids, RMS and geometric radii, fans, encircled energy, distortion and grid distortion, pupil aberration, "
         "Coddington's equations for field curvature on spherical lenses, real-ray operands. Trace_Analyses validates .data of each analysis object "
-        "against independently traced rays for random lenses and samples; calibration every run.",
+        "against independently traced rays for random lenses and samples (on lenses with vignetting factors: the spot family, against the rays "
+        "Optic.trace launches for the documented sample); calibration every run.",
    technique="TLA+ index machine + TLC MC (with negative config); spec->code replay of the contract; code->spec trace validation (dyadic arithmetic)",
    ref="6 (C12)")
 CHECKS["C14"] = dict(
@@ -172,7 +174,7 @@ CHECKS["C20"] = dict(
 CHECKS["C03"] = dict(
    text="spec/Launch.tla states (a) the accept/reject decision table over aperture type x field type x object distance x telecentric flag as a state "
         "machine - MC_Launch checks totality and determinism over all 24 cells and the table is replayed into the code (ValueError exactly where it says "
-        "Reject) - (b) the launch relations cross-multiplied on dyadic numbers (origin on the object, field angle with a validated tan certificate, aim at "
+        "Reject) - (b) the launch relations cross-multiplied on dyadic numbers (origin on the object surface - plane or sphere -, field angle with a validated tan certificate, aim at "
         "(Px,Py) EPD/2 on the entrance pupil plane, telecentric chief/rim clauses, unit direction, intensity 1, zero path, wavelength, forward), and "
         "(c) the documented point counts of the named pupil samplings (integer formulas checked by TLC against exact counts), points inside the unit "
         "disk, vignetting only shrinks. Trace_Launch validates recorded launches of random lenses over every accepted cell, every sampling and several "
@@ -180,11 +182,11 @@ CHECKS["C03"] = dict(
    technique="TLA+ decision-table machine + TLC MC; spec->code replay of the table; code->spec trace validation of launch records (dyadic)",
    ref="6 (C03)")
 CHECKS["C05"] = dict(
-   text="spec/Limit.tla states the quadratic-decay predicate on geometric eps-sequences (decay ratio <= 5/16 above an explicit rounding floor, end bound, "
+   text="spec/Limit.tla states the quadratic-decay predicate on geometric eps-sequences (decay ratio <= 7/16 above an explicit rounding floor, end bound, "
         "at least four informative steps); MC_Limit (432 states) shows it accepts a eps^2 and a eps^2 + b eps^4 and rejects a eps, constant offset and "
         "stalled sequences. Trace_Limit evaluates it on recorded real-ray families (marginal-type and chief-type, eps = 2^-4 .. 2^-12) at every surface "
         "of random lenses and samples against the paraxial marginal/chief rays and Paraxial.trace, plus axial focus -> F2, image height per unit field, "
-        "zero-pupil ray -> stop centre. The limit is observed over 2.4 decades, not proved. Calibration every run.",
+        "zero-pupil ray -> stop centre (height at the stop against 0 itself). The limit is observed over 2.4 decades, not proved. Calibration every run.",
    technique="TLA+ limit predicate + TLC MC on synthetic sequences; code->spec trace validation of recorded eps-families (dyadic)",
    ref="6 (C05)")
 CHECKS["C11"] = dict(
